@@ -17,7 +17,7 @@ Proof. destruct a; cbn [dtype_eqb]; try reflexivity; apply Z.eqb_refl. Qed.
 Lemma cast_same a v : cast a a v = Some v.
 Proof. unfold cast. rewrite dtype_eqb_refl. reflexivity. Qed.
 
-Definition int_like (a:dtype) : bool := match a with DFloat _ => false | _ => true end.
+Definition int_like (a:dtype) : bool := match a with DFloat _ | DBytes _ => false | _ => true end.
 
 (* v is a value of dtype b *)
 Definition fits (b:dtype) (v:Z) : Prop :=
@@ -25,7 +25,7 @@ Definition fits (b:dtype) (v:Z) : Prop :=
   | DBool => v = 0 \/ v = 1
   | DInt n => 1 <= n /\ - 2 ^ (n - 1) <= v < 2 ^ (n - 1)
   | DUInt n => 0 <= n /\ 0 <= v < 2 ^ n
-  | DFloat _ => False
+  | DFloat _ | DBytes _ => False
   end.
 
 Lemma wrap_s_fits n v : 1 <= n -> - 2 ^ (n - 1) <= v < 2 ^ (n - 1) -> wrap_s n v = v.
@@ -42,13 +42,14 @@ Proof. intros Hv. unfold wrap_u. apply Z.mod_small. exact Hv. Qed.
 Lemma cast_fits a b v : int_like a = true -> fits b v -> cast a b v = Some v.
 Proof.
   intros Ha Hf. unfold cast. destruct (dtype_eqb a b) eqn:E; [reflexivity|].
-  destruct b as [|n|n|n]; cbn [fits] in Hf.
-  - destruct a as [|m|m|m]; cbn [dtype_eqb int_like] in *; try discriminate;
+  destruct b as [|n|n|n|n]; cbn [fits] in Hf.
+  - destruct a as [|m|m|m|m]; cbn [dtype_eqb int_like] in *; try discriminate;
       (destruct Hf as [-> | ->]; reflexivity).
   - destruct Hf as (Hn & Hv).
     destruct a; cbn [int_like] in Ha; try discriminate; rewrite (wrap_s_fits n v Hn Hv); reflexivity.
   - destruct Hf as (Hn & Hv).
     destruct a; cbn [int_like] in Ha; try discriminate; rewrite (wrap_u_fits n v Hv); reflexivity.
+  - contradiction.
   - contradiction.
 Qed.
 
